@@ -100,6 +100,40 @@ class Certificate:
             "toBeSigned", {}).get("appPermissions", [])
         return any(entry.get("psid") == its_aid for entry in app_permissions)
 
+    def get_validity_period_microseconds(self) -> tuple[int, int]:
+        """
+        Return the validity period of the certificate as (start, end), both in
+        microseconds since the ITS epoch (the unit of Time64 / generationTime).
+
+        ValidityPeriod.start is a Time32 (seconds since the ITS epoch); the
+        Duration CHOICE is converted as specified in IEEE 1609.2 §6.4.15
+        (a year is 31556952 seconds).
+        """
+        validity = self.certificate["toBeSigned"]["validityPeriod"]
+        unit, amount = validity["duration"]
+        unit_microseconds = {
+            "microseconds": 1,
+            "milliseconds": 1_000,
+            "seconds": 1_000_000,
+            "minutes": 60_000_000,
+            "hours": 3_600_000_000,
+            "sixtyHours": 216_000_000_000,
+            "years": 31_556_952_000_000,
+        }[unit]
+        start = validity["start"] * 1_000_000
+        return start, start + amount * unit_microseconds
+
+    def is_valid_at(self, generation_time: int) -> bool:
+        """
+        Check whether a generation time (Time64, microseconds since the ITS
+        epoch) lies within the validity period of the certificate.
+        """
+        try:
+            start, end = self.get_validity_period_microseconds()
+        except (KeyError, TypeError, ValueError):
+            return False
+        return start <= generation_time <= end
+
     @staticmethod
     def as_clear_certificate() -> Certificate:
         """
